@@ -322,6 +322,17 @@ func (p *Prover) build(at ssa.Instruction, roots []ssa.Value) *graph {
 		}
 		seen[v] = true
 		me := p.toLin(v)
+		// a value of a small unsigned type lies within its range
+		if b, ok := v.Type().Underlying().(*types.Basic); ok && me.base != "" {
+			switch b.Kind() {
+			case types.Uint8:
+				g.le(lin{"", 0}, me)
+				g.le(me, lin{"", 255})
+			case types.Uint16:
+				g.le(lin{"", 0}, me)
+				g.le(me, lin{"", 65535})
+			}
+		}
 		switch x := v.(type) {
 		case *ssa.BinOp:
 			switch x.Op {
@@ -378,6 +389,7 @@ func (p *Prover) build(at ssa.Instruction, roots []ssa.Value) *graph {
 			if lb, ok := p.phiLower(x, map[*ssa.Phi]bool{}, 0); ok {
 				g.le(lin{"", lb}, me)
 			}
+			p.loopPhiFacts(g, x, me, visit, depth)
 		}
 	}
 	for _, r := range roots {
@@ -418,6 +430,149 @@ func (p *Prover) build(at ssa.Instruction, roots []ssa.Value) *graph {
 		}
 	}
 	return g
+}
+
+// loopPhiFacts adds two loop invariants for a loop-header phi v = phi[init, back]:
+//
+//  1. counted loop: if back = v + c (c >= 1) is computed only where v < N holds
+//     (the test dominates the increment), N is not changed by the loop (a
+//     constant or a length) and init <= N is derivable, then v <= N + c - 1.
+//  2. lockstep: if another phi w of the same header advances by exactly cw >= 1
+//     per iteration (back = w + cw) and v advances by at most cw on every path
+//     of the body, then v - w never grows: v <= w + d for the d with
+//     init_v <= init_w + d.
+func (p *Prover) loopPhiFacts(g *graph, v *ssa.Phi, me lin, visit func(ssa.Value, int), depth int) {
+	hdr := v.Block()
+	if len(v.Edges) != 2 || len(hdr.Preds) != 2 {
+		return
+	}
+	bi := -1
+	for i, pr := range hdr.Preds {
+		if hdr.Dominates(pr) {
+			if bi >= 0 {
+				return
+			}
+			bi = i
+		}
+	}
+	if bi < 0 {
+		return
+	}
+	init, back := v.Edges[1-bi], v.Edges[bi]
+	// 1. counted loop
+	if bo, ok := stripConv(back).(*ssa.BinOp); ok && bo.Op == token.ADD && stripConv(bo.X) == ssa.Value(v) {
+		if c, ok := constOf(bo.Y); ok && c >= 1 {
+			for _, cd := range facts.CondsAt(bo.Block()) {
+				x, op, y, okc := facts.Cmp(cd)
+				if !okc || stripConv(x) != ssa.Value(v) || (op != token.LSS && op != token.LEQ) {
+					continue
+				}
+				n := p.toLin(y)
+				stable := n.base == "" || strings.HasPrefix(n.base, "len(")
+				if !stable {
+					continue
+				}
+				visit(y, depth+1)
+				visit(init, depth+1)
+				ub := lin{n.base, n.off + c - 1}
+				if op == token.LEQ {
+					ub.off++
+				}
+				if g.provesLE(p.toLin(init), ub) {
+					g.le(me, ub)
+				}
+			}
+		}
+	}
+	// 2. lockstep with a sibling phi
+	dv, ok := p.maxAdvance(back, v, 0)
+	if !ok {
+		return
+	}
+	for _, in := range hdr.Instrs {
+		w, isPhi := in.(*ssa.Phi)
+		if !isPhi {
+			break
+		}
+		if w == v || len(w.Edges) != 2 || !isInt(w.Type()) {
+			continue
+		}
+		wb, isBo := stripConv(w.Edges[bi]).(*ssa.BinOp)
+		if !isBo || wb.Op != token.ADD || stripConv(wb.X) != ssa.Value(w) {
+			continue
+		}
+		cw, isK := constOf(wb.Y)
+		if !isK || cw < 1 || dv > cw {
+			continue
+		}
+		visit(init, depth+1)
+		visit(w.Edges[1-bi], depth+1)
+		a, b := p.toLin(init), p.toLin(w.Edges[1-bi])
+		var d int64
+		if a.base == b.base {
+			d = a.off - b.off
+		} else if dist, ok := g.dist(b.base, a.base); ok {
+			d = dist + a.off - b.off
+		} else {
+			continue
+		}
+		wl := p.toLin(w)
+		g.le(me, lin{wl.base, wl.off + d})
+	}
+}
+
+func stripConv(v ssa.Value) ssa.Value {
+	for i := 0; i < 4; i++ {
+		if cv, ok := v.(*ssa.Convert); ok && isInt(cv.Type()) && isInt(cv.X.Type()) {
+			v = cv.X
+			continue
+		}
+		break
+	}
+	return v
+}
+
+// maxAdvance: the largest c such that val can be root + c, following phis
+// inside the loop body; fails if some incoming value is not of that form.
+func (p *Prover) maxAdvance(val ssa.Value, root *ssa.Phi, depth int) (int64, bool) {
+	val = stripConv(val)
+	if depth > 6 {
+		return 0, false
+	}
+	if val == ssa.Value(root) {
+		return 0, true
+	}
+	switch x := val.(type) {
+	case *ssa.BinOp:
+		if x.Op == token.ADD {
+			if c, ok := constOf(x.Y); ok {
+				d, ok := p.maxAdvance(x.X, root, depth+1)
+				return d + c, ok
+			}
+		}
+		if x.Op == token.SUB {
+			if c, ok := constOf(x.Y); ok {
+				d, ok := p.maxAdvance(x.X, root, depth+1)
+				return d - c, ok
+			}
+		}
+	case *ssa.Phi:
+		if x.Block() == root.Block() {
+			return 0, false
+		}
+		var best int64
+		for i, e := range x.Edges {
+			d, ok := p.maxAdvance(e, root, depth+1)
+			if !ok {
+				return 0, false
+			}
+			if i == 0 || d > best {
+				best = d
+			}
+		}
+		return best, true
+	}
+	return 0, false
 }
 
 func isIndexFamily(name string) bool {
@@ -505,6 +660,11 @@ func (p *Prover) phiLower(ph *ssa.Phi, stack map[*ssa.Phi]bool, depth int) (int6
 			lb = v
 			have = true
 		}
+	}
+	if !have && len(stack) > 1 {
+		// every incoming value is (a phi being evaluated) + c, c >= 0: this inner
+		// phi is no smaller than that phi
+		return selfRef, true
 	}
 	return lb, have
 }
